@@ -192,6 +192,20 @@ def op_exceptcols(js, inm, text):
     return 'ok ' + (m.group(1) if m.group(1) else '!')
 
 
-for _n, _f in (('joinresolve', op_joinresolve), ('exceptcols', op_exceptcols), ('dictvars', op_dictvars), ('attrvars', op_attrvars), ('directvars', op_directvars), ('clidialect', op_clidialect), ('starcount', op_starcount), ('starvars', op_starvars), ('starmarker', op_starmarker), ('trsel', op_trsel), ('updpairs', op_updpairs),
+def op_tablevars(js, pfx, query, names, norm, width):
+    """TableIterator.get_variables_map on a table of the given width"""
+    ns = None if names == 'N' else dec_list(names[1:])
+    table = [] if width == '~' else [['x'] * int(width)]
+    it = rbql_engine.TableIterator(table, ns, norm == '1', dec_str(pfx))
+    try:
+        d = it.get_variables_map(dec_str(query))
+    except rbql_engine.RbqlIOHandlingError as e:
+        return 'err width' if 'different lengths' in str(e) else 'err badname'
+    except rbql_engine.RbqlParsingError:
+        return 'err notfound'
+    return enc_varmap(d)
+
+
+for _n, _f in (('tablevars', op_tablevars), ('joinresolve', op_joinresolve), ('exceptcols', op_exceptcols), ('dictvars', op_dictvars), ('attrvars', op_attrvars), ('directvars', op_directvars), ('clidialect', op_clidialect), ('starcount', op_starcount), ('starvars', op_starvars), ('starmarker', op_starmarker), ('trsel', op_trsel), ('updpairs', op_updpairs),
                ('basicvars', op_basicvars), ('arrayvars', op_arrayvars), ('selinfos', op_selinfos)):
     impl_py.register(_n, _f)
